@@ -4,7 +4,7 @@
    roc_auc_score is an oracle (Section variable [auc]); that scikit-learn's function is the
    Mann-Whitney statistic is validated by the correspondence lane, not proved. *)
 From Coq Require Import List ZArith Reals.
-From ML Require Import Ops Vec VecR C01Proof C04Proof.
+From ML Require Import Ops Vec VecR NPFacts C04Proof.
 From MLgen Require Import Src_query.
 Import ListNotations.
 Open Scope R_scope.
